@@ -458,10 +458,10 @@ def run(ctx):
         qn += n
         qout += no
         res.merge_violations(viol)
-    depth = 6 if th else 4
+    depth = 5 if th else 4
     tasks = [(dual, depth, f, None) for dual in (False, True) for f in first_ops(dual)]
     # the containers built with a bounded characteristics queue (maxlen 2: fewer places than intervals)
-    tasks += [(dual, depth - (1 if th else 0), f, 2) for dual in (False, True) for f in first_ops(dual)]
+    tasks += [(dual, depth, f, 2) for dual in (False, True) for f in first_ops(dual)]
     states = trans = 0
     for t, (ns, nt, viol, d) in zip(tasks, pmap(sd_bfs, tasks)):
         states += ns
